@@ -281,7 +281,7 @@ func Check(env *core.Env, rep *core.Report) *core.Result {
 	nSelRows := len(rows) - nMatch
 
 	// (3) events: file operations on selected, excluded and unrelated files
-	nEv := 10
+	nEv := 14
 	if thorough {
 		nEv = 120
 	}
@@ -310,7 +310,14 @@ func Check(env *core.Env, rep *core.Report) *core.Result {
 		}
 		logf := filepath.Join(cfgd, "tasklog")
 		var y strings.Builder
-		fmt.Fprintf(&y, "tasks:\n  t:\n    command: ['/bin/echo \"RUN $EventName $EventPath\" >> %s']\nwatchers:\n  w:\n    task: t\n    watch: [\"*.txt\"]\n    exclude: [\"ex.txt\"]\n", logf)
+		// in half of the scenarios the task outlasts the loop's one-second pause, so that a later
+		// event is taken while the run for an earlier one is still in progress
+		slow := i%2 == 1
+		pre := ""
+		if slow {
+			pre = "sleep 1.7; "
+		}
+		fmt.Fprintf(&y, "tasks:\n  t:\n    command: ['%s/bin/echo \"RUN $EventName $EventPath\" >> %s']\nwatchers:\n  w:\n    task: t\n    watch: [\"*.txt\"]\n    exclude: [\"ex.txt\"]\n", pre, logf)
 		if len(listed) > 0 {
 			fmt.Fprintf(&y, "    events: [%s]\n", strings.Join(listed, ", "))
 		}
@@ -365,6 +372,9 @@ func Check(env *core.Env, rep *core.Report) *core.Result {
 		}
 		// the loop takes one event per second: wait until everything delivered has been handled
 		time.Sleep(time.Duration(2+len(ops)) * 1100 * time.Millisecond)
+		if slow {
+			time.Sleep(2500 * time.Millisecond)
+		}
 		p.waitStable(1500*time.Millisecond, 10*time.Second)
 		txt := p.text()
 		if strings.Contains(txt, "panic:") {
@@ -390,7 +400,7 @@ func Check(env *core.Env, rep *core.Report) *core.Result {
 			ls = []string{}
 		}
 		evOut[i].row = rowT{"kind": "events", "listed": ls, "delivered": delivered, "runs": runs, "touchedSelected": keys(touchedSel), "touchedOther": keys(touchedOther)}
-		evOut[i].desc = fmt.Sprintf("events subscribed=%v ops=%v delivered=%v runs=%v", ls, ops, delivered, runs)
+		evOut[i].desc = fmt.Sprintf("events subscribed=%v slow-task=%v ops=%v delivered=%v runs=%v", ls, slow, ops, delivered, runs)
 	})
 	broken = 0
 	for _, s := range evOut {
